@@ -13,6 +13,165 @@ from checks import conn_common as cc
 from harness.common import main
 
 
+def _sum(b):
+    return sum((i % 251 + 1) * x for i, x in enumerate(b)) % 1000003
+
+
+def realnet_relay(chk, quick):
+    """C01 on kernel sockets: REAL proxy processes in the three execution modes.  Tunnel: both peers send a few MiB in odd-sized
+    pieces at the same time while reading at their own pace; HTTP: a chunked response of a few MiB.  What one side sent is what the
+    other side must have received (judged by TraceFlush: length, position-weighted checksum, end-of-stream)."""
+    import random
+    import socket
+    import threading
+    import time
+    from harness import realnet, tlc
+    from harness.common import MachineryError
+    n = (1 << 20) * (2 if quick else 5)
+    A = random.Random(11).randbytes(n)          # client -> origin
+    B = random.Random(12).randbytes(n + 12345)  # origin -> client
+    chunked = b'HTTP/1.1 200 OK\r\nTransfer-Encoding: chunked\r\nConnection: close\r\n\r\n' + b''.join(
+        b'%x;e=1\r\n' % len(B[i:i + 50021]) + B[i:i + 50021] + b'\r\n' for i in range(0, len(B), 50021)) + b'0\r\nX-T: 1\r\n\r\n'
+
+    class Duplex(realnet.Origin):
+        """Tunnel peer: sends B in 4999-byte pieces while receiving; closes once it has received len(A) bytes and sent everything."""
+        def _serve(self, c, rec, idx):
+            try:
+                c.settimeout(30)
+
+                def pump():
+                    for i in range(0, len(B), 4999):
+                        c.sendall(B[i:i + 4999])
+                t = threading.Thread(target=pump, daemon=True)
+                t.start()
+                while len(rec['got']) < len(A):
+                    d = c.recv(30011)
+                    if not d:
+                        break
+                    rec['got'] += d
+                t.join(60)
+            except Exception as e:     # noqa
+                rec['err'] = repr(e)[:100]
+            finally:
+                c.close()
+
+    class Chunked(realnet.Origin):
+        def _serve(self, c, rec, idx):
+            try:
+                c.settimeout(30)
+                while b'\r\n\r\n' not in rec['got']:
+                    d = c.recv(65536)
+                    if not d:
+                        return
+                    rec['got'] += d
+                for i in range(0, len(chunked), 70001):
+                    c.sendall(chunked[i:i + 70001])
+            except Exception as e:     # noqa
+                rec['err'] = repr(e)[:100]
+            finally:
+                c.close()
+    duplex, ch = Duplex(b'D'), Chunked(b'C')
+    cases, descs = [], {}
+
+    def tunnel_client(port, nap):
+        s = socket.create_connection(('127.0.0.1', port), timeout=10)
+        got, eof = bytearray(), False
+        try:
+            s.sendall(b'CONNECT 127.0.0.1:%d HTTP/1.1\r\nHost: 127.0.0.1:%d\r\n\r\n' % (duplex.port, duplex.port))
+            head = b''
+            while b'\r\n\r\n' not in head:
+                d = s.recv(1)
+                if not d:
+                    return head, False, b''
+                head += d
+
+            def pump():
+                try:
+                    for i in range(0, len(A), 7919):
+                        s.sendall(A[i:i + 7919])
+                except OSError:
+                    pass
+            t = threading.Thread(target=pump, daemon=True)
+            t.start()
+            s.settimeout(30)
+            while True:
+                try:
+                    d = s.recv(20011)
+                except (socket.timeout, OSError):
+                    break
+                if not d:
+                    eof = True
+                    break
+                got += d
+                if nap:
+                    time.sleep(nap)
+            t.join(30)
+        finally:
+            s.close()
+        return head, eof, bytes(got)
+
+    def http_client(port, nap):
+        s = socket.create_connection(('127.0.0.1', port), timeout=10)
+        got, eof = bytearray(), False
+        try:
+            s.sendall(b'GET http://127.0.0.1:%d/c HTTP/1.1\r\nHost: 127.0.0.1:%d\r\n\r\n' % (ch.port, ch.port))
+            s.settimeout(30)
+            while True:
+                try:
+                    d = s.recv(20011)
+                except (socket.timeout, OSError):
+                    break
+                if not d:
+                    eof = True
+                    break
+                got += d
+                if nap:
+                    time.sleep(nap)
+        finally:
+            s.close()
+        return eof, bytes(got)
+
+    def add(mode, what, who, exp, obs, eof):
+        cid = len(cases) + 1
+        cases.append({'id': cid, 'prop': 'C01', 'who': who, 'explen': len(exp), 'expsum': _sum(exp), 'gotlen': len(obs), 'gotsum': _sum(obs),
+                      'eof': eof, 'wait_ms': 0, 'limit_ms': 1})
+        descs[cid] = {'mode': mode, 'exchange': what, 'receiver': who, 'bytes_expected': len(exp), 'bytes_received': len(obs), 'eof': eof}
+    try:
+        for mode in ('threaded', 'local', 'remote'):
+            px = realnet.ProxyProc(mode, extra=['--timeout', '30'])
+            try:
+                for pace, nap in (('fast', 0.0), ('slow', 0.003)):
+                    k0 = len(duplex.transcript())
+                    head, eof, got = tunnel_client(px.port, nap)
+                    time.sleep(0.2)
+                    recs = duplex.transcript()[k0:]
+                    ogot = recs[0]['got'] if recs else b''
+                    if not head.startswith(b'HTTP/1.1 200'):
+                        raise MachineryError('CONNECT through the %s proxy was not acknowledged: %r' % (mode, head[:60]))
+                    add(mode, 'tunnel, %s client' % pace, 'client', B, got, eof)
+                    add(mode, 'tunnel, %s client' % pace, 'origin', A, ogot, True)
+                    eof, got = http_client(px.port, nap)
+                    add(mode, 'chunked response, %s client' % pace, 'client', chunked, got, eof)
+            finally:
+                px.stop()
+    finally:
+        duplex.stop()
+        ch.stop()
+    results, rej = tlc.run_sharded('TraceFlush', 'TraceFlush.cfg', cases, shards=4, timeout=300)
+    m = tlc.Merged(results)
+    chk.add_tlc('TraceFlush (%d real relays: 3 modes x tunnel both ways / chunked response x client paces)' % len(cases), m)
+    if m.status == 'failed':
+        raise MachineryError('TraceFlush: ' + m.brief())
+    chk.traces(len(cases))
+    for cid, clause in rej:
+        d = descs[cid]
+        chk.violation({'part': 'realnet', 'mode': d['mode'], 'exchange': d['exchange'].split(',')[0], 'receiver': d['receiver']},
+                      'kernel sockets, %s mode, %s: %s' % (d['mode'], d['exchange'], clause), d)
+    chk.cov['realnet_relays'] = len(cases)
+    if cases:
+        chk.sample({'part': 'kernel sockets', 'case': descs[1]})
+
+
 def run(chk):
     quick = chk.tier == 'quick'
     seed = chk.seed
@@ -88,10 +247,12 @@ def run(chk):
             chk.sample({'scenario': info['scen'], 'unit_bytes': info['U'], 'schedule': info['schedule'], 'events': len(tr['ev']),
                         'first_events': tr['ev'][:8]})
     chk.cov['model_drift_runs'] = drift_total
+    realnet_relay(chk, quick)
     chk.assume('peers act between loop iterations only (reduction argument, DESIGN.md 2.3)',
                'SimNet socket semantics (harness/simnet.py) stand for the kernel; probed against loopback TCP on this kernel by tools/kernel_probe.py (close / reset / half-close outcomes)',
                'delivery towards the upstream is demanded only while that upstream is fully open; towards the client while it can still receive; client half-close cases are unconstrained (DESIGN.md 4.6)',
-               'TLS-wrapped relays are not exercised on SimNet')
+               'TLS-wrapped relays are not exercised on SimNet',
+               'kernel-socket part: loopback TCP, 2 (quick) / 5 MiB per direction, origins close after their last byte')
 
 
 if __name__ == '__main__':
